@@ -23,21 +23,28 @@ theorem andNot_65535 (x : Nat) : andNot x 65535 = x - x % 65536 := by
   have : x &&& 65535 = x % 65536 := Nat.and_two_pow_sub_one_eq_mod x 16
   rw [this]
 
+/-! The proofs below are written to survive behaviour-preserving rewrites of the Go functions (branches swapped, conditions
+negated, temporaries introduced): both sides are unfolded, every `if` is split, and linear arithmetic closes the cases. -/
+
 theorem tie_hlcNow (highest phys : Nat) : Gen.hlcNow highest phys = Rosmar.hlcNow highest phys := by
   unfold Gen.hlcNow Rosmar.hlcNow
-  simp only [andNot_65535]
+  try simp only [andNot_65535]
+  all_goals (first | rfl | ((repeat' split) <;> (try dsimp only) <;> omega))
 
 theorem tie_hlcUpdate (highest last : Nat) : Gen.hlcUpdate highest last = Rosmar.hlcUpdate highest last := by
   unfold Gen.hlcUpdate Rosmar.hlcUpdate
-  rfl
+  try dsimp only
+  all_goals (first | rfl | ((repeat' split) <;> (try dsimp only) <;> omega))
 
 theorem tie_absExp (now exp : Nat) : Gen.absoluteExpiry now exp = Rosmar.absExp now exp := by
   unfold Gen.absoluteExpiry Rosmar.absExp Gen.kMaxDeltaTtl Rosmar.maxDeltaTtl
-  rfl
+  try dsimp only
+  all_goals (first | rfl | ((repeat' split) <;> (try dsimp only) <;> omega))
 
 theorem tie_schedule (next exp : Nat) : Gen.scheduleAtOrBefore next exp = Rosmar.schedAtOrBefore next exp := by
   unfold Gen.scheduleAtOrBefore Rosmar.schedAtOrBefore
-  rfl
+  try dsimp only
+  all_goals (first | rfl | ((repeat' split) <;> (try dsimp only) <;> omega))
 
 /-- The statements on `documents` that are not restricted to one collection. -/
 def unscopedStatements : List (String × String) :=
